@@ -23,6 +23,14 @@ func loadReplay(file string, into any) {
 		fmt.Println("replay file carries no input (proof-level break)")
 		os.Exit(0)
 	}
+	var probe struct {
+		Kind  string `json:"kind"`
+		Rerun string `json:"rerun"`
+	}
+	if json.Unmarshal(rf.Input, &probe) == nil && probe.Kind == "panic-in-library" {
+		fmt.Println("REPLAY: the library panicked inside a generated run; the generator is deterministic, re-run it: " + probe.Rerun)
+		os.Exit(0)
+	}
 	must(json.Unmarshal(rf.Input, into))
 }
 
